@@ -2,4 +2,4 @@
 From Coq Require Import Extraction ExtrOcamlBasic.
 From SF Require Import Base.Prelude Unsized.Types Unsized.Parse Unsized.Machine Unsized.Ops Unsized.Run.
 Extraction Language OCaml.
-Extraction "model_unsized.ml" Z.add Z.mul Z.opp run_enc run_ops run_parse.
+Extraction "model_unsized.ml" Z.add Z.mul Z.opp run_enc run_ops run_parse run_swap.
